@@ -125,6 +125,19 @@ def _k1(ctx, rep):
 
 def _aggregate(e: ast.AST):
     """('sum'|'product', is product) for reduce(op, xs) / np.prod / np.sum / sum / math.prod"""
+    if isinstance(e, ast.IfExp):
+        # `<aggregate> if <there is something to aggregate> else 1`: the literal 1 is the empty product
+        kinds = []
+        for br in (e.body, e.orelse):
+            if is_num(br, 1):
+                continue
+            k, okb = _aggregate(br)
+            if k is None:
+                return None, False
+            kinds.append((k, okb))
+        if kinds and len({k for k, _ in kinds}) == 1:
+            return kinds[0][0], all(o for _, o in kinds)
+        return None, False
     if isinstance(e, ast.Call):
         dn = dotted(e.func) or ""
         base = dn.split(".")[-1]
